@@ -187,3 +187,151 @@ Proof.
         -- destruct k as [|[|k]]; cbn [eR]; vsimp; f_equal; ring.
       * revert El. unfold vadds, vsubs. k3 k; cbn [eR]; vsimp; rops; intros; lra.
 Qed.
+
+Theorem mesh_aabb_exact : forall T (vs : list V3R) lo hi,
+  mesh_aabb T vs = Some (lo, hi) -> aabb_exact (hull_set T vs) lo hi.
+Proof.
+  intros T vs lo hi E. unfold hull_set. apply vertices_aabb_exact.
+  rewrite <- E. unfold mesh_aabb. f_equal. apply map_ext.
+  intros v. vsimp; f_equal; ring.
+Qed.
+
+Lemma box_param (k s : R) : 0 <= s -> Rabs k <= / 2 * s -> exists t, 0 <= t <= 1 /\ k = (t - / 2) * s.
+Proof.
+  intros Hs Hk. assert (Hk' : - (/ 2 * s) <= k <= / 2 * s).
+  { unfold Rabs in Hk. destruct (Rcase_abs k); lra. }
+  destruct (Req_dec s 0) as [E|E].
+  - exists (/ 2). subst s. split; [lra|]. lra.
+  - exists (/ 2 + k / s). assert (0 < s) by lra. split.
+    + assert (- / 2 <= k / s <= / 2); [|lra]. split.
+      * apply Rmult_le_reg_r with s; auto. unfold Rdiv. rewrite Rmult_assoc, Rinv_l by auto. lra.
+      * apply Rmult_le_reg_r with s; auto. unfold Rdiv. rewrite Rmult_assoc, Rinv_l by auto. lra.
+    + field; auto.
+Qed.
+
+Lemma box_vertex_in (T : Pose R) (size : V3R) v :
+  0 <= vx size -> 0 <= vy size -> 0 <= vz size ->
+  In v (convert_box_to_vertices T size) -> box_set T size v.
+Proof.
+  intros Hx Hy Hz H. unfold convert_box_to_vertices in H. apply in_map_iff in H.
+  destruct H as (c & <- & Hc). exists (vmul c size). split.
+  - unfold BOX_COORDS in Hc. rewrite ?half_R, ?mhalf_R in Hc. unfold box_K.
+    cbn [In] in Hc.
+    repeat (destruct Hc as [<-|Hc]; [destruct size as [sx sy sz]; vunfold; cbn [vx vy vz] in *;
+      repeat split; apply Rabs_le; lra|]).
+    destruct Hc.
+  - vsimp; f_equal; ring.
+Qed.
+
+Lemma box_in_hull (T : Pose R) (size : V3R) x :
+  0 <= vx size -> 0 <= vy size -> 0 <= vz size ->
+  box_set T size x -> conv_hull (convert_box_to_vertices T size) x.
+Proof.
+  intros Hx Hy Hz (k & (Kx & Ky & Kz) & ->).
+  destruct size as [sx sy sz], k as [kx ky kz]. cbn [vscale vx vy vz] in *. rops.
+  destruct (box_param kx sx Hx Kx) as (tx & Htx & ->).
+  destruct (box_param ky sy Hy Ky) as (ty & Hty & ->).
+  destruct (box_param kz sz Hz Kz) as (tz & Htz & ->).
+  clear Kx Ky Kz.
+  exists [(1-tx)*(1-ty)*(1-tz); (1-tx)*(1-ty)*tz; (1-tx)*ty*(1-tz); (1-tx)*ty*tz;
+          tx*(1-ty)*(1-tz); tx*(1-ty)*tz; tx*ty*(1-tz); tx*ty*tz].
+  split; [reflexivity|]. split; [|split].
+  - repeat (apply Forall_cons; [repeat apply Rmult_le_pos; lra|]). apply Forall_nil.
+  - cbn [sum]. ring.
+  - unfold convert_box_to_vertices, BOX_COORDS. rewrite ?half_R, ?mhalf_R.
+    destruct T as [[[m00 m01 m02] [m10 m11 m12] [m20 m21 m22]] [cx cy cz]].
+    cbv [transform_point map comb vadd vscale mulMV dot vmul vzero rot trans vx vy vz r0 r1 r2 add mul zero ROps].
+    (apply V3_eq; cbn [vx vy vz]; field).
+Qed.
+
+Theorem box_aabb_exact : forall T size, 0 <= vx size -> 0 <= vy size -> 0 <= vz size ->
+  exists lo hi, box_aabb T size = Some (lo, hi) /\ aabb_exact (box_set T size) lo hi.
+Proof.
+  intros T size Hx Hy Hz.
+  destruct (box_aabb T size) as [[lo hi]|] eqn:E.
+  - exists lo, hi. split; auto. unfold box_aabb in E.
+    apply (aabb_exact_of_list _ _ _ _ E).
+    + intros v. apply box_vertex_in; auto.
+    + intros x. apply box_in_hull; auto.
+  - unfold box_aabb, convert_box_to_vertices, BOX_COORDS in E. cbn [map axis_aligned_bounding_box] in E. discriminate.
+Qed.
+
+(** ** images of centrally symmetric canonical sets: the box is centre +- extent, where
+       the extent on axis i is the support value of the canonical set along row i *)
+Definition row (m : M3 R) (i : nat) : V3R := match i with 0%nat => r0 m | 1%nat => r1 m | _ => r2 m end.
+
+Lemma nthv_transform (T : Pose R) (k : V3R) i :
+  nthv (transform_point T k) i = nthv (trans T) i + dot (row (rot T) i) k.
+Proof. destruct i as [|[|i]]; cbn [row]; vsimp; ring. Qed.
+Lemma nthv_col2 (m : M3 R) i : nthv (col m 2) i = vz (row m i).
+Proof. destruct i as [|[|i]]; reflexivity. Qed.
+Lemma nthv_vadd (a b : V3R) i : nthv (vadd a b) i = nthv a i + nthv b i.
+Proof. destruct i as [|[|i]]; reflexivity. Qed.
+Lemma nthv_vsub (a b : V3R) i : nthv (vsub a b) i = nthv a i - nthv b i.
+Proof. destruct i as [|[|i]]; reflexivity. Qed.
+Lemma row_unit (m : M3 R) i : is_rotation m -> dot (row m i) (row m i) = 1.
+Proof. intros H. destruct (rotation_row_unit m H) as (A & B & C). destruct i as [|[|i]]; auto. Qed.
+Lemma norm_unit (d : V3R) : dot d d = 1 -> norm d = 1.
+Proof. intros H. unfold norm. rewrite H. apply sqrt_1. Qed.
+
+Lemma image_aabb_sym (T : Pose R) (K : set3) (e : V3R) :
+  (forall k, K k -> K (vneg k)) ->
+  (forall i, (i < 3)%nat ->
+     (forall k, K k -> dot (row (rot T) i) k <= nthv e i) /\
+     (exists k, K k /\ dot (row (rot T) i) k = nthv e i)) ->
+  aabb_exact (image T K) (vsub (trans T) e) (vadd (trans T) e).
+Proof.
+  intros Hsym H. split.
+  - intros x (k & Hk & ->) i Hi. destruct (H i Hi) as [Hb _].
+    rewrite nthv_transform, nthv_vadd, nthv_vsub.
+    pose proof (Hb k Hk) as H1. pose proof (Hb (vneg k) (Hsym k Hk)) as H2.
+    rewrite dot_comm, dot_neg_l, dot_comm in H2. lra.
+  - intros i Hi. destruct (H i Hi) as [_ (k & Hk & Ek)]. split.
+    + exists (transform_point T k). split; [exists k; auto|].
+      rewrite nthv_transform, nthv_vadd. lra.
+    + exists (transform_point T (vneg k)). split; [exists (vneg k); auto|].
+      rewrite nthv_transform, nthv_vsub. rewrite dot_comm, dot_neg_l, dot_comm. lra.
+Qed.
+
+(** ** capsule *)
+Lemma capsule_K_sym r h k : capsule_K r h k -> capsule_K r h (vneg k).
+Proof.
+  intros (t & Ht & Hd). exists (- t). split; [rewrite Rabs_Ropp; auto|].
+  replace (dot (vsub (vneg k) (V 0 0 (- t))) (vsub (vneg k) (V 0 0 (- t))))
+    with (dot (vsub k (V 0 0 t)) (vsub k (V 0 0 t))) by (vsimp; ring). auto.
+Qed.
+
+Lemma capsule_K_extent (d : V3R) (r h : R) : dot d d = 1 -> 0 <= r -> 0 <= h ->
+  (forall k, capsule_K r h k -> dot d k <= / 2 * h * Rabs (vz d) + r) /\
+  (exists k, capsule_K r h k /\ dot d k = / 2 * h * Rabs (vz d) + r).
+Proof.
+  intros Hd Hr Hh. split.
+  - intros k (t & Ht & Hk).
+    pose proof (cs3_radius _ d r Hr Hk) as Hc. rewrite (norm_unit d Hd) in Hc.
+    pose proof (mul_le_abs t (vz d)) as Hm. pose proof (Rabs_pos (vz d)). pose proof (Rabs_pos t).
+    assert (Rabs t * Rabs (vz d) <= / 2 * h * Rabs (vz d)) by nra.
+    replace (dot d k) with (dot (vsub k (V 0 0 t)) d + t * vz d) by (vsimp; ring). lra.
+  - destruct (Rle_dec 0 (vz d)) as [Hz|Hz].
+    + exists (vadd (vscale r d) (V 0 0 (/ 2 * h))). split.
+      * exists (/ 2 * h). split; [rewrite Rabs_pos_eq; lra|].
+        replace (vsub (vadd (vscale r d) (V 0 0 (/ 2 * h))) (V 0 0 (/ 2 * h))) with (vscale r d) by (vsimp; f_equal; ring).
+        rewrite dot_scale_l, dot_scale_r, Hd. lra.
+      * rewrite dot_add_r, dot_scale_r, Hd. rewrite Rabs_pos_eq by auto. vsimp; ring.
+    + exists (vadd (vscale r d) (V 0 0 (- (/ 2 * h)))). split.
+      * exists (- (/ 2 * h)). split; [rewrite Rabs_Ropp, Rabs_pos_eq; lra|].
+        replace (vsub (vadd (vscale r d) (V 0 0 (- (/ 2 * h)))) (V 0 0 (- (/ 2 * h)))) with (vscale r d) by (vsimp; f_equal; ring).
+        rewrite dot_scale_l, dot_scale_r, Hd. lra.
+      * rewrite dot_add_r, dot_scale_r, Hd. rewrite Rabs_left by lra. vsimp; ring.
+Qed.
+
+Theorem capsule_aabb_exact : forall T r h, is_rotation (rot T) -> 0 <= r -> 0 <= h ->
+  aabb_exact (capsule_set T r h) (fst (capsule_aabb T r h)) (snd (capsule_aabb T r h)).
+Proof.
+  intros T r h HR Hr Hh. unfold capsule_aabb, capsule_set. cbn [fst snd].
+  apply image_aabb_sym; [apply capsule_K_sym|].
+  intros i Hi.
+  replace (nthv (vadds (vscale (half * h) (vabs (col (rot T) 2))) r) i)
+    with (/ 2 * h * Rabs (vz (row (rot T) i)) + r).
+  - apply capsule_K_extent; auto. apply row_unit; auto.
+  - rewrite half_R. rewrite <- nthv_col2. destruct i as [|[|i]]; reflexivity.
+Qed.
